@@ -1,7 +1,7 @@
 """C06 — numeric comparisons agree with the exact order. Spec: MBF.tla (Decode, Cmp); oracle self-check MBF_MC;
 trace spec C06_Trace."""
 import time
-from ..mbfdrv import (Drv, typ, int_bytes, flt, flt_of_int, neighbour, negated, rand_float, rand_value, rand_int, PBITS, SIZE)
+from ..mbfdrv import (Drv, Pipeline, Sink, typ, int_bytes, flt, flt_of_int, neighbour, negated, rand_float, rand_value, rand_int, PBITS, SIZE)
 
 LEVEL = 'exploration'
 META = {
@@ -32,7 +32,16 @@ def run(ctx):
     d = Drv()
     bv = d.bv
     relfn = [getattr(bv, r) for r in RELS]
-    events = []
+
+    def on_reject(clause, e):
+        key = {'clause': clause, 'tx': e['tx'], 'ty': e['ty'], 'xexp': e['x'][-1] if e['tx'] != 'i' else -1,
+               'yexp': e['y'][-1] if e['ty'] != 'i' else -1, 'via': e['via']}
+        ctx.reject('C06 %s: x=%s%s y=%s%s -> [= <> < > <= >=] = %s %s' % (clause, e['tx'], e['x'], e['ty'], e['y'], e['o'],
+                                                                        e.get('detail', '')), key=key, data=e)
+
+    pipe = Pipeline(ctx, 'C06_Trace', on_reject, lambda e: [e['tx'], e['x'], e['ty'], e['y'], e['via']],
+                    parallel=2 if quick else 4)
+    events = Sink(ctx, pipe, lambda e: e['tx'] + e['ty'], ['is', 'sd', 'dd', 'di'])
     ptext = 0.04 if quick else 0.02
 
     def asint(o):
@@ -107,7 +116,7 @@ def run(ctx):
             return z
         return negated(neighbour(y, rng.choice([1, -1])) or y) or y
 
-    npair = ctx.pick(4200, 130000)
+    npair = ctx.pick(8000, 300000)
     for tx in 'isd':
         for ty in 'isd':
             for i in range(npair):
@@ -140,25 +149,9 @@ def run(ctx):
             compare(x, flt_of_int(rng.choice('sd'), v + rng.choice([0, 0, 1, -1])), text=False)
     d.close()
     ctx.cov['impl_wall_s'] = round(time.time() - t0, 1)
+    pipe.finish()
     ctx.cov['calls_direct'] = d.ndirect
     ctx.cov['calls_via_basic_text'] = d.ntext
-    ctx.cov['relation_evaluations'] = 6 * len(events)
-
-    pairs = {}
-    for e in events:
-        ctx.count([e['tx'], e['x'], e['ty'], e['y'], e['via']])
-        pairs[e['tx'] + e['ty']] = pairs.get(e['tx'] + e['ty'], 0) + 1
-    ctx.cov['pairs_by_types'] = pairs
-    ctx.sample(events[0]); ctx.sample(events[len(events) // 3]); ctx.sample(events[len(events) // 2]); ctx.sample(events[-1])
-    CH = 150000
-    for at in range(0, len(events), CH):
-        chunk = events[at:at + CH]
-        verdicts = ctx.validate('C06_Trace', [{k: v for k, v in e.items() if k not in ('via', 'detail')} for e in chunk])
-        ctx.cov['traces_validated_against_impl'] += 1
-        for (i, clause) in verdicts:
-            e = chunk[i - 1]
-            key = {'clause': clause, 'tx': e['tx'], 'ty': e['ty'], 'xexp': e['x'][-1] if e['tx'] != 'i' else -1,
-                   'yexp': e['y'][-1] if e['ty'] != 'i' else -1, 'via': e['via']}
-            ctx.reject('C06 %s: x=%s%s y=%s%s -> [= <> < > <= >=] = %s %s' % (clause, e['tx'], e['x'], e['ty'], e['y'], e['o'],
-                                                                            e.get('detail', '')), key=key, data=e)
+    ctx.cov['relation_evaluations'] = 6 * pipe.n
+    ctx.cov['pairs_by_types'] = pipe.by
     ctx.assumptions += ['TLC evaluates MBF.tla correctly (Cmp self-checked against native arithmetic on the reduced format by MBF_MC)']
